@@ -18,7 +18,7 @@ PROPS["C19"] = {
              "plus the exhaustive (row, argument, length 0..2n+2, fill) sweep"),
     "assumptions": ["documented panics are exactly those listed in DESIGN.md appendix A"],
     "units": [{
-        "pkg": "internal/zzc19", "configs": {"quick": ["default", "force32bit"], "thorough": ALL4},
+        "pkg": "internal/zzc19", "configs": {"quick": ["default", "force32bit"], "thorough": ALL4 + ["386"]},
         "tests": {
             "TestC19Untrusted": T(120000, 2000000),
             "TestC19LengthSweep": LIST(),
